@@ -303,7 +303,10 @@ func inputFile(format, dir string) string {
 // handleLoad feeds one document to codegen.Input.LoadSchemas (the function
 // Pipeline.LoadSchemas calls for every input).
 func handleLoad(dir string, req Req) Resp {
-	in := filepath.Join(dir, "load")
+	// a fresh path per request: kin-openapi caches file contents by URI for the
+	// life of the process (openapi3.DefaultReadFromURI is a URIMapCache)
+	in := filepath.Join(dir, fmt.Sprintf("load%d", curRequest.Load()))
+	defer os.RemoveAll(in)
 	mustWrite(inputFile(req.Fmt, in), req.Data)
 	input := inputFor(req.Fmt, in)
 	if input == nil {
@@ -360,8 +363,8 @@ func handleYAML(dir string, req Req) Resp {
 // would be random; to keep runs deterministic (and to let no language mask
 // another) the loaded pipeline is run once per configured language.
 func handleConfig(dir string, req Req) Resp {
-	in := filepath.Join(dir, "cfg")
-	os.RemoveAll(in)
+	in := filepath.Join(dir, fmt.Sprintf("cfg%d", curRequest.Load()))
+	defer os.RemoveAll(in)
 	names := make([]string, 0, len(req.Files))
 	for n := range req.Files {
 		names = append(names, n)
@@ -463,6 +466,16 @@ func handleIR(dir string, req Req) Resp {
 	kind, arg, _ := strings.Cut(req.Stage, ":")
 	in := filepath.Join(dir, "ir")
 	switch kind {
+	case "passes":
+		var outs []Out
+		for _, tpl := range passTemplates {
+			r := req
+			r.Stage = "pass:" + tpl.Name
+			o := handleIR(dir, r).Outs[0]
+			o.Lang = r.Stage
+			outs = append(outs, o)
+		}
+		return Resp{Outs: outs}
 	case "builders":
 		return Resp{Outs: []Out{guarded("", func() (int, error) {
 			b := (&ast.BuilderGenerator{}).FromAST(schemas)
